@@ -66,7 +66,11 @@ func (ms msgServer) UpdateParams(goCtx context.Context, msg *types.MsgUpdatePara
 	}
 	// set updated new params
 	ms.SetParams(ctx, p)
-	_ = GetAggregatorContext(ctx, ms.Keeper)
-	cs.AddCache(cache.ItemP(p))
+	// the params cache is process memory shared with block execution: a simulation (gas estimation) of this
+	// message must not write it, as RegisterNewTokenAndSetTokenFeeder already takes care not to
+	if !ctx.IsCheckTx() {
+		_ = GetAggregatorContext(ctx, ms.Keeper)
+		cs.AddCache(cache.ItemP(p))
+	}
 	return &types.MsgUpdateParamsResponse{}, nil
 }
